@@ -302,6 +302,9 @@ def _task(kind, k, rng):
     if kind == "stale-timeout":
         return ("(def [r%d w%d] (os/pipe))" % (k, k),
                 "(ev/write w%d \"z\") (ev/read r%d 1 nil 30) (ev/close r%d) (ev/close w%d) (ev/sleep %g)" % (k, k, k, k, d), "done", "")
+    if kind == "loop1-interrupt":
+        # the embedding API janet_loop1_interrupt (an event with a NULL callback), acknowledged at once
+        return "", "(c20/loop1-interrupt) (ev/sleep %g)" % d, "done", ""
     # ---- cancelled waits: the task blocks for "ever"; main cancels it
     if kind == "cancel-sleep":
         return "", "(ev/sleep 30)", "cancelled", "(ev/cancel t%d :stop)" % k
@@ -327,7 +330,7 @@ def _task(kind, k, rng):
 
 MIX_KINDS = ["sleep", "sleep-chain", "thread", "do-thread", "proc", "execute", "pipe", "proc-pipe", "tcp", "chan", "tchan-thread",
              "read-timeout", "deadline", "stale-deadline", "stale-timeout", "cancel-sleep", "cancel-take", "cancel-tchan-take",
-             "cancel-read", "cancel-proc-wait", "close-under-read", "chan-close-under-take"]
+             "cancel-read", "cancel-proc-wait", "close-under-read", "chan-close-under-take", "loop1-interrupt"]
 
 
 def mix_script(rng, ntasks, kinds=None):
